@@ -75,6 +75,10 @@ pub fn run(args: &[Sx]) -> Sx {
                     Err(e) => err(shape_sx(&e.shape())),
                 }
             }
+            (21, 4) => {
+                let (shape, data, nans) = (args[1].pairs_usize()?, args[2].i64s()?, args[3].usizes()?);
+                with_d!(shape.len(), nan_eq(&shape, &data, &nans))
+            }
             (20, 3) => {
                 let (lt, rt) = (parse_term(&args[1])?, parse_term(&args[2])?);
                 if lt.base_d() != rt.base_d() {
@@ -444,6 +448,39 @@ fn into_matrix(term: &Term) -> Sx {
             ok(l(vec![z(m.rows()), z(m.columns()), l(data)]))
         }
     }
+}
+
+/// f64 elements with NaN at the listed positions: every eq / similar form, same-object operands
+/// included. Only booleans leave this function.
+#[allow(clippy::eq_op)]
+fn nan_eq<const D: usize>(shape: &[(usize, usize)], data: &[i64], nans: &[usize]) -> Sx {
+    let shape: [(&'static str, usize); D] = shape_arr(shape);
+    let data: Vec<f64> = data
+        .iter()
+        .enumerate()
+        .map(|(i, x)| if nans.contains(&i) { f64::NAN } else { *x as f64 })
+        .collect();
+    let Some(t) = guarded(move || Tensor::from(shape, data)) else { return panicked() };
+    let c = t.clone();
+    let flags = [
+        t == t,
+        t == c,
+        c == t,
+        t.view() == t.view(),
+        t == t.view(),
+        t.view() == t,
+        t.similar(&t),
+        t.similar(&c),
+        c.similar(&t),
+        t.view().similar(&t.view()),
+        t.similar(&t.view()),
+        t.view().similar(&t),
+    ];
+    // != must be the negation of == in the same-object form as well
+    if (t != t) == flags[0] {
+        return inconsistent(1330);
+    }
+    ok(l(flags.iter().map(|b| boolean(*b)).collect()))
 }
 
 fn eq_sim<const D: usize>(lt: &Term, rt: &Term) -> Sx {
